@@ -62,16 +62,28 @@ fn do_call(u: &Unimock, m: u32, a: u8) -> String {
         5 => u.m5(a).take(),
         6 => <Unimock as G<u8>>::g(u, a).take(),
         7 => <Unimock as G<u16>>::g(u, a).take(),
+        #[cfg(feature = "dtrait")]
         10 => u.r0(a).take(),
+        #[cfg(feature = "dtrait")]
         11 => u.r1(a).take(),
+        #[cfg(feature = "dtrait")]
         12 => u.u2(a, a + 1).take(),
+        #[cfg(feature = "dtrait")]
         13 => u.u3(a, a + 1).take(),
+        #[cfg(feature = "dtrait")]
         14 => u.p_ref(a).take(),
         _ => panic!("harness: no such method {m}"),
     }
 }
 
+#[cfg(not(feature = "dtrait"))]
+fn call_any(slot: &mut Option<Unimock>, m: u32, a: u8) -> String {
+    let u = slot.as_ref().unwrap();
+    obs(catch_unwind(AssertUnwindSafe(|| do_call(u, m, a))), show_val)
+}
+
 /// calls through every receiver kind; by-value / sole-owner Rc and Arc receivers consume the instance
+#[cfg(feature = "dtrait")]
 fn call_any(slot: &mut Option<Unimock>, m: u32, a: u8) -> String {
     use std::pin::Pin;
     use std::rc::Rc;
